@@ -912,7 +912,7 @@ def handshake(sim, a, b, **acq):
             and a.ctl.ike_sas[0].state == State.ESTABLISHED and b.ctl.ike_sas[0].state == State.ESTABLISHED)
 
 
-def make_star(seed=0, peers=2, v6=False, share_protect=False, **kw):
+def make_star(seed=0, peers=2, v6=False, share_protect=False, hub_edit=None, **kw):
     """Hub H (192.0.2.100) with one connection to each of P1..Pn; returns (sim, hub, [peers]). share_protect: every connection of the hub uses ONE protect
     list object (what a YAML alias produces), whose entry names neither subnets nor an index."""
     sim = Sim(seed)
@@ -933,6 +933,8 @@ def make_star(seed=0, peers=2, v6=False, share_protect=False, **kw):
         shared = [{k_: v_ for k_, v_ in first.items() if k_ not in ('index', 'my_subnet', 'peer_subnet')}]
         for c_ in hub_conf.values():
             c_['protect'] = shared
+    if hub_edit is not None:
+        hub_edit(hub_conf)          # (the caller's last word on the hub's connections: what each one sets or leaves to the defaults)
     hub = sim.add('H', [hub_addr], hub_conf)
     for i, (pa, c) in enumerate(confs):
         peer_eps.append(sim.add(f'P{i + 1}', [pa], c))
